@@ -2,16 +2,19 @@ import Pyrtma.Model.Validators
 /-!
 # M5 — bytes / dict / JSON round trips (`message_base._to_dict`, `_from_dict`, `Message.from_json`)
 
-A message class is modelled *flattened*: nested structs and struct arrays are walked (by `_to_dict` / `_from_dict` and by
-the harness alike) down to **leaves** — the descriptor fields of M4 — at absolute offsets.  For a leaf
+Two levels.
+
+**Leaves** — the descriptor fields of M4 — at absolute offsets.  For a leaf
 
 * `toDictLeaf ty bytes` is the Python value `_to_dict` puts into the dictionary (what `getattr(obj, name)` /
   `array[:]` return), and
 * `_from_dict` assigns that value back through the descriptor on a fresh (all-zero) object, i.e. M4's
-  `setField true ty zeros .whole value`.
+  `setField true ty zeros .whole value` (`setItem … [:]` for arrays).
 
-The JSON *text* layer (`json.dumps` / `json.loads`) is Python's and is not modelled: it is exercised on the
-implementation (floats print as shortest round-trip decimals, `bytes` become lists of ints via `RTMAJSONEncoder`).
+**Whole classes** — `Desc`: the walk of `_fields_` with nested structs and struct arrays and the byte layout; `toDict`
+/ `fromDict` mirror `_to_dict` / `_from_dict` including their failure modes (`DErr`).
+
+The JSON text layer is `Model/Json.lean`, storage (copies, views) is `Model/Heap.lean`.
 -/
 namespace Pyrtma.Serial
 open Pyrtma.Validators
@@ -37,6 +40,141 @@ def fromDictLeaf (ty : FTy) (v : PyVal) : Bytes × Option PyErr :=
   -- arrays are assigned with `getattr(obj, name)[:] = value`
   | .arr _ vk n, v => setItem true vk n (zeros ty.size) (.slice none none none) v
   | ty, v => setField true ty (zeros ty.size) .whole v
+
+/-! ## whole message classes
+
+A class is a **descriptor**: the walk of `_fields_` that `_to_dict` / `_from_dict` perform.  ctypes lays the fields of a
+`Structure` out one after the other, so a struct is a list of (name, padding in front, field descriptor) plus trailing
+padding; the absolute offsets the class reports are turned into these paddings by the driver (`Drv/Serial.lean`), which
+refuses a class whose offsets are not increasing. -/
+
+mutual
+inductive Desc
+  /-- scalar, char, byte, string, byte array, numeric array: one M4 descriptor field -/
+  | leaf (ty : FTy)
+  /-- `issubclass(ftype, MessageBase)`: a nested struct (and the top-level class itself) -/
+  | strct (fs : Fields) (tail : Nat)
+  /-- `issubclass(ftype, ctypes.Array) and issubclass(ftype._type_, MessageBase)` -/
+  | sarr (n : Nat) (elem : Desc)
+  deriving DecidableEq, Repr
+inductive Fields
+  | nil
+  | cons (name : String) (pad : Nat) (d : Desc) (rest : Fields)
+  deriving DecidableEq, Repr
+end
+
+mutual
+def Desc.size : Desc → Nat
+  | .leaf ty => ty.size
+  | .strct fs tail => fs.size + tail
+  | .sarr n e => n * e.size
+def Fields.size : Fields → Nat
+  | .nil => 0
+  | .cons _ pad d r => pad + d.size + r.size
+end
+
+def Fields.names : Fields → List String
+  | .nil => []
+  | .cons name _ _ r => name :: r.names
+
+/- the Python object `to_dict()` returns: leaves are M4 values, `dict` keeps insertion order -/
+mutual
+inductive Val
+  | leaf (v : PyVal)
+  | dict (kvs : KVs)
+  | list (xs : Vals)
+  deriving DecidableEq, Repr
+inductive KVs
+  | nil
+  | cons (k : String) (v : Val) (r : KVs)
+  deriving DecidableEq, Repr
+inductive Vals
+  | nil
+  | cons (v : Val) (r : Vals)
+  deriving DecidableEq, Repr
+end
+
+def Vals.ofList : List Val → Vals
+  | [] => .nil
+  | v :: vs => .cons v (Vals.ofList vs)
+def Vals.toList : Vals → List Val
+  | .nil => []
+  | .cons v r => v :: r.toList
+/-- `data[name]` -/
+def KVs.lookup (name : String) : KVs → Option Val
+  | .nil => none
+  | .cons k v r => if k == name then some v else r.lookup name
+def KVs.append : KVs → KVs → KVs
+  | .nil, b => b
+  | .cons k v r, b => .cons k v (r.append b)
+def KVs.keys : KVs → List String
+  | .nil => []
+  | .cons k _ r => k :: r.keys
+
+/-- what `_from_dict` can raise (all of it reaches the caller as `JSONDecodingError`) -/
+inductive DErr
+  | field (e : PyErr)     -- a descriptor refused the value
+  | key                   -- `data[name]`: no such key
+  | index                 -- `data[name][i]`: list too short
+  | shape                 -- a dict / list where a leaf value is expected, or the other way round
+  deriving DecidableEq, Repr
+
+/- `_to_dict(obj)` where `b` are the bytes of `obj` -/
+mutual
+def toDict : Desc → Bytes → Val
+  | .leaf ty, b => .leaf (toDictLeaf ty b)
+  | .strct fs _, b => .dict (toDictFields fs b)
+  | .sarr n e, b => .list (Vals.ofList ((chunks e.size n b).map fun c => toDict e c))
+def toDictFields : Fields → Bytes → KVs
+  | .nil, _ => .nil
+  | .cons name pad d r, b =>
+    .cons name (toDict d ((b.drop pad).take d.size)) (toDictFields r (b.drop (pad + d.size)))
+end
+
+/-- `for i, elem in enumerate(getattr(obj, name)): _from_dict(elem, data[name][i])`: the elements one after the other,
+the first failure stops the loop; list items beyond the array length are never looked at -/
+def fromElems (f : Val → Bytes × Option DErr) (esz : Nat) : Nat → List Val → Bytes × Option DErr
+  | 0, _ => ([], none)
+  | n + 1, [] => (zeros ((n + 1) * esz), some .index)
+  | n + 1, v :: vs =>
+    match f v with
+    | (b, some e) => (b ++ zeros (n * esz), some e)
+    | (b, none) => let r := fromElems f esz n vs; (b ++ r.1, r.2)
+
+/-- `String` fields: "list of characters is equivalent to str" -/
+def joinChars : PyVal → PyVal
+  | .seq .list xs =>
+    if xs.all (fun x => match x with | .str cs => cs.length ≤ 1 | _ => false) then
+      .sc (.str (xs.flatMap fun x => match x with | .str cs => cs | _ => []))
+    else .seq .list xs
+  | v => v
+
+/-- the value a leaf descriptor is handed: `data[name]`, for `c_char` arrays after the list-of-characters conversion -/
+def leafArg (ty : FTy) (v : PyVal) : PyVal :=
+  match ty with | .str _ => joinChars v | _ => v
+
+/- `_from_dict(obj, data)` on a **fresh** (all-zero) object of the class: the bytes of the object afterwards and the
+exception, if one came out (then the bytes are those of the half-filled object; `from_dict` drops it) -/
+mutual
+def fromDict : Desc → Val → Bytes × Option DErr
+  | .leaf ty, .leaf v =>
+    let r := fromDictLeaf ty (leafArg ty v)
+    (r.1, r.2.map .field)
+  | .leaf ty, _ => (zeros ty.size, some .shape)
+  | .strct fs tail, .dict kvs => let r := fromDictFields fs kvs; (r.1 ++ zeros tail, r.2)
+  | .strct fs tail, _ => (zeros (fs.size + tail), some .shape)
+  | .sarr n e, .list xs => fromElems (fun v => fromDict e v) e.size n xs.toList
+  | .sarr n e, _ => (zeros (n * e.size), some .shape)
+def fromDictFields : Fields → KVs → Bytes × Option DErr
+  | .nil, _ => ([], none)
+  | .cons name pad d r, kvs =>
+    match kvs.lookup name with
+    | none => (zeros (pad + d.size + r.size), some .key)
+    | some v =>
+      match fromDict d v with
+      | (b, some e) => (zeros pad ++ b ++ zeros r.size, some e)
+      | (b, none) => let rr := fromDictFields r kvs; (zeros pad ++ b ++ rr.1, rr.2)
+end
 
 /-- `Message.from_json`'s version check: refuse iff the header carries a non-zero version that differs from the
 local definition's hash -/
